@@ -319,4 +319,43 @@ example : distinctL (N := Int) [.num 1, .str "1", .num 1, .arr [.num 1], .arr [.
 example : shuffleWith (N := Int) [.num 1, .num 2, .num 3] [0, 0, 1] [] = [.num 2, .num 3, .num 1] := by
   simp [shuffleWith, shuffleStep]
 
+/-! ### $single, $append, $reverse -/
+
+/-- **$single**: the unique member whose result is truthy; none or several is an error -/
+theorem single_spec (r : Rec N) (fv : Val N) (f : List (Option (Val N)) → Option (Val N))
+    (hf : PureCall r fv f) (v : Option (Val N)) (s : Store N) :
+    ∃ s', builtinImpl r "single" [v, some fv] s =
+      (match filterSpec f (clamp (paramCount fv) 1 3) (forceArr v) 0 (forceArr v) with
+       | [x] => .ok (some x, s')
+       | _ => .error (.lib "single")) := by
+  obtain ⟨s', h⟩ := filter_eq_spec r fv f hf v s
+  refine ⟨s', ?_⟩
+  have hdef : builtinImpl r "single" [v, some fv] =
+      (do match (← libFilterL r v fv) with
+          | [x] => pure (some x)
+          | _ => libErr "single") := rfl
+  rw [hdef]
+  simp only [bind, StateT.bind, Except.bind, h]
+  generalize filterSpec f (clamp (paramCount fv) 1 3) (forceArr v) 0 (forceArr v) = ys
+  match ys with
+  | [] => rfl
+  | [x] => rfl
+  | _ :: _ :: _ => rfl
+
+/-- **$append** concatenates (a missing side yields the other side as it is; scalars count as one-member arrays) -/
+theorem append_spec (r : Rec N) (a b : Val N) (s : Store N) :
+    builtinImpl r "append" [some a, some b] s = .ok (some (.arr (arrayify (some a) ++ arrayify (some b))), s) ∧
+    builtinImpl r "append" [some a, none] s = .ok (some a, s) ∧
+    builtinImpl r "append" [none, some b] s = .ok (some b, s) := by
+  refine ⟨rfl, rfl, rfl⟩
+
+/-- **$reverse** reverses; reversing twice gives the array back -/
+theorem reverse_spec (r : Rec N) (xs : List (Val N)) (s : Store N) :
+    builtinImpl r "reverse" [some (.arr xs)] s = .ok (some (.arr xs.reverse), s) ∧
+    builtinImpl r "reverse" [some (.arr xs.reverse)] s = .ok (some (.arr xs), s) := by
+  refine ⟨rfl, ?_⟩
+  have h : builtinImpl r "reverse" [some (.arr xs.reverse)] s = .ok (some (.arr xs.reverse.reverse), s) := rfl
+  rw [h, List.reverse_reverse]
+
+
 end Jsonata.Props.C15
